@@ -194,8 +194,8 @@ def size(seq):
 class Gen:
     """A containment tree in the runner's pre-order numbering."""
 
-    def __init__(self, r, dup):
-        self.r, self.dup = r, dup
+    def __init__(self, r, dup, refp=0.35):
+        self.r, self.dup, self.refp = r, dup, refp
         self.cls = []       # class name per object index
         self.text = []
 
@@ -209,7 +209,7 @@ class Gen:
         return len(self.cls) - 1
 
     def refs(self, refname):
-        if self.r.chance(0.35):
+        if self.r.chance(self.refp):
             self.new("Ref")
             self.text.append("ref %s" % refname())
 
@@ -349,7 +349,7 @@ def messy_join(r, names, sep):
 
 def gen_glue_skel(r, i):
     dup = r.chance(0.1)
-    g = Gen(r, dup)
+    g = Gen(r, dup, refp=0.12)
     split = r.weighted([(None, 5), ("/", 3), (":", 1)])
     cnt = [0]
 
@@ -373,6 +373,14 @@ def fill_glue(r, c, rows):
     sep = c["split"] or "."
     text = c.pop("template")
     refs = [i for i, row in enumerate(rows) if row["cls"] == "Ref"]
+    # prefer an expression that can resolve something from the first reference
+    for _ in range(6):
+        if directed_names(r, rows, c["ast"], refs[0], tries=6)[1]:
+            break
+        ast, etext = gen_expr(r)
+        while "links" in etext or "zzz" in etext:
+            ast, etext = gen_expr(r)
+        c["ast"], c["expr"] = ast, ("+p:" if c["proxy"] else "") + etext
     confs = []
     for k, ri in enumerate(refs):
         names, J = directed_names(r, rows, c["ast"], ri, tries=14) if r.chance(0.9) else (gen_names(r), [])
